@@ -34,7 +34,7 @@ SSLOTS = ['e1', 'e2']                # scalar-dynamic slots
 DSLOTS = ['d1', 'd2', 'gd']          # data slots (gd lives in grp)
 RSLOTS = ['rc1']                     # lazily included files (!rec), each file holds one !call
 _TMP = {'dir': None}
-XTARGETS = ['d1', 'd2', 'grp.gd', 'al', 'al', 'al2', 'al2']      # al: !xref to a data slot; al2: !xref to al, or a mapping holding one
+XTARGETS = ['d1', 'd2', 'grp.gd', 'al', 'al', 'al2', 'al2', 'e1']      # al: !xref to a data slot; al2: !xref to al, or a mapping holding one
 EVALNAMES = ['d1', 'd2', 'al', 'grp.gd', 'al', 'al2']
 
 
@@ -99,9 +99,12 @@ def _stage(draw, idx, ctr, kinds):
     for s in SSLOTS:
         if draw(st.integers(0, 2)) == 0 and not first:
             continue
-        c = draw(st.integers(0, 5))
+        c = draw(st.integers(0, 6))
         ctr['id'] += 1
-        if c <= 1:
+        if c == 6:
+            # code that only *creates* a callable: its free names are resolved when a call target runs it, after the !eval node is done
+            w[s] = ['lam', ctr['id'], draw(st.lists(st.sampled_from(EVALNAMES), min_size=1, max_size=2))]
+        elif c <= 1:
             w[s] = ['eval', ctr['id'], draw(st.lists(st.sampled_from(EVALNAMES), max_size=2))]
         elif c == 2:
             w[s] = ['fstr', ctr['id'], draw(st.lists(st.sampled_from(EVALNAMES), max_size=1))]
@@ -191,6 +194,19 @@ def _case(draw):
             if cands:
                 a = cands[draw(st.integers(0, len(cands) - 1))]
                 a[2] = True
+    lam = [st_['writes']['e1'] for st_ in stages if st_['writes'].get('e1', ['x'])[0] == 'lam']
+    if lam and draw(st.booleans()):
+        # the callable made by e1 is handed to a call (which runs it), and one of the entries its code names is written by unsafe content
+        holders = [st_['writes'][sl] for st_ in stages for sl in ('n1', 'n2') if st_['writes'].get(sl, ['x'])[0] in ('call', 'bind', 'args')]
+        if holders:
+            h = holders[draw(st.integers(0, len(holders) - 1))]
+            (h[2] if h[0] in ('call', 'bind') else h[1]).append(['fl', ['xref', 'e1'], False])
+        names = [nm for nm in lam[-1][2] if nm in ('d1', 'd2', 'grp.gd')]
+        if names:
+            slot = {'grp.gd': 'gd'}.get(names[0], names[0])
+            writers = [st_ for st_ in stages if slot in st_['writes']]
+            if writers:
+                writers[-1]['tags'][slot] = True
     return {'stages': stages, 'kinds': kinds, 'lowlevel': draw(st.integers(0, 2)) == 0}
 
 
@@ -239,6 +255,8 @@ def _write_node(w, tagged):
             # !rec has no metadata form: the tag on the node itself cannot be combined with !unsafe
             return n
         return n
+    elif k == 'lam':
+        n = tdoc.raw('lambda: note(' + ', '.join([str(w[1])] + w[2]) + ')', '!eval', q='dq')
     elif k == 'eval':
         n = tdoc.raw('note(' + ', '.join([str(w[1])] + w[2]) + ')', '!eval', q='dq')
     elif k == 'fstr':
@@ -340,7 +358,7 @@ def provenance(case):
             elif k == 'arglist':
                 for m in w[1]:
                     marker_taint[m] = t
-            elif k in ('name', 'eval', 'fstr', 'import'):
+            elif k in ('name', 'eval', 'lam', 'fstr', 'import'):
                 id_taint[w[1]] = t
             elif k == 'rec':
                 # the call lives in a file read lazily on behalf of this node: tainted if the node or the element naming the file is
@@ -353,8 +371,24 @@ def provenance(case):
     return id_taint, marker_taint
 
 
+def _no_e1(args):
+    for a in args:
+        sp = a[1]
+        if sp[0] == 'xref' and sp[1] == 'e1':
+            sp[1] = 'd1'
+        elif sp[0] == 'call':
+            _no_e1(sp[2])
+
+
 def fix_required(case):
     """A !required placeholder must not be the last write of its slot (it would fail the build for another reason)."""
+    # the code of e1 may name grp.gd, which evaluates the whole group: the function node inside the group must not refer back to e1
+    e1_deleted = any(st_['writes'].get('e1', ['x'])[0] == 'del' for st_ in case['stages'])      # (a reference to a deleted key dangles)
+    for st_ in case['stages']:
+        for slot in FSLOTS if e1_deleted else ['g1']:
+            w = st_['writes'].get(slot)
+            if w is not None and w[0] in ('call', 'bind', 'args', 'delargs'):
+                _no_e1(w[2] if w[0] in ('call', 'bind') else w[1])
     for s in FSLOTS:
         last = None
         for st_ in case['stages']:
